@@ -86,6 +86,7 @@ class NumberAddExpr(base.RawTreeModel):
 
     @classmethod
     def from_children(cls, operands: tuple[NumberMulExpr, ...], ops: tuple[AddOp, ...]) -> Self:
+        internal.check_detachable([*operands, *ops])
         tokens = []
         for operand, op in zip(operands, ops):
             tokens.extend(operand.detach())
